@@ -54,6 +54,31 @@ static const char *vh_step(const vh_step_t *st, vh_sb *ret, vh_sb *state) {
             FREE(l);
         }
         sb_putc(ret, ']');
+        /* purity: the same call just before on the SAME buffer with different content of the same length (errno left at
+         * ERANGE), then the text again - the result must be the one of the fresh call */
+        if (n > 0) {
+            int v; vh_sb again = {0, 0, 0};
+            for (v = 0; v < CU_ALTS; v++) {
+                unsigned char *orig = cu_text(st->args[1], NULL);
+                cu_alt_content(v, s, orig, n);
+                errno = ERANGE;
+                l = spiftool_split((spif_charptr_t) d, (spif_charptr_t) s);
+                if (l) { for (i = 0; l[i]; i++) { FREE(l[i]); } FREE(l); }
+                memcpy(s, orig, n + 1);
+                free(orig);
+                l = spiftool_split((spif_charptr_t) d, (spif_charptr_t) s);
+                sb_need(&again, 16); sb_reset(&again);
+                sb_putc(&again, '[');
+                if (l) {
+                    for (i = 0; l[i]; i++) { if (i) sb_putc(&again, ','); sb_cstr(&again, (unsigned char *) l[i]); }
+                    for (i = 0; l[i]; i++) { FREE(l[i]); }
+                    FREE(l);
+                }
+                sb_putc(&again, ']');
+                if (strcmp(again.p, ret->p)) { free(again.p); free(d); free(s); return "split_result_depends_on_the_previous_call"; }
+            }
+            free(again.p);
+        }
         free(d); free(s);
     } else if (!strcmp(op, "tok") && st->nargs == 2) {
         unsigned char *d = cu_text(st->args[0], NULL), *s = cu_text(st->args[1], NULL);
@@ -92,6 +117,37 @@ static const char *vh_step(const vh_step_t *st, vh_sb *ret, vh_sb *state) {
         }
         sb_puts(ret, "],w=["); sb_puts(ret, w.p ? w.p : ""); sb_puts(ret, "]}");
         free(w.p);
+        /* purity: get_word / get_pword / num_words after the same calls were made just before on the SAME buffer with
+         * different content of the same length and a LOWER index (a cache keyed by address, length, index) */
+        if (len > 0 && n >= 1) {
+            unsigned char *orig = cu_text(st->args[0], NULL); int v; unsigned long k2;
+            for (v = 0; v < CU_ALTS; v++) {
+                for (i = 1; i <= n; i++) {
+                    for (k2 = 0; k2 < 2; k2++) {
+                        unsigned long k = k2 ? (i > 1 ? i - 1 : 1) : 1;
+                        spif_charptr_t g, f, pf, pg; unsigned long nw; int same;
+                        if (k2 && k == 1) continue;
+                        f = spiftool_get_word(i, (spif_charptr_t) orig);         /* fresh buffer: the reference for purity */
+                        pf = spiftool_get_pword(i, (spif_charptr_t) orig);
+                        cu_alt_content(v, s, orig, len);
+                        errno = ERANGE;
+                        g = spiftool_get_word(k, (spif_charptr_t) s); if (g) FREE(g);
+                        (void) spiftool_get_pword(k, (spif_charptr_t) s);
+                        (void) spiftool_num_words((spif_charptr_t) s);
+                        memcpy(s, orig, len + 1);
+                        g = spiftool_get_word(i, (spif_charptr_t) s);
+                        pg = spiftool_get_pword(i, (spif_charptr_t) s);
+                        nw = spiftool_num_words((spif_charptr_t) s);
+                        same = ((!f && !g) || (f && g && !strcmp((char *) f, (char *) g)))
+                               && ((!pf && !pg) || (pf && pg && (pf - (spif_charptr_t) orig) == (pg - (spif_charptr_t) s))) && nw == n;
+                        if (f) FREE(f);
+                        if (g) FREE(g);
+                        if (!same) { free(orig); free(s); return "word_utility_result_depends_on_the_previous_call"; }
+                    }
+                }
+            }
+            free(orig);
+        }
         /* out-of-range indices: no claim about the value, but no access outside the text either */
         {
             spif_charptr_t g = spiftool_get_word(0, (spif_charptr_t) s);
